@@ -72,6 +72,7 @@ func IndexStartOptimize(pipe []*gripql.GraphStatement) []*gripql.GraphStatement 
 		if has, ok := pipe[idx].GetStatement().(*gripql.GraphStatement_HasId); ok {
 			ids = append(ids, protoutil.AsStringList(has.HasId)...)
 		}
+		ids = uniqueStrings(ids)
 		if len(ids) > 0 {
 			idOpt = true
 			hIdx := &gripql.GraphStatement_V{V: protoutil.NewListFromStrings(ids)}
@@ -89,6 +90,7 @@ func IndexStartOptimize(pipe []*gripql.GraphStatement) []*gripql.GraphStatement 
 		if has, ok := pipe[idx].GetStatement().(*gripql.GraphStatement_HasLabel); ok {
 			labels = append(labels, protoutil.AsStringList(has.HasLabel)...)
 		}
+		labels = uniqueStrings(labels)
 		if len(labels) > 0 {
 			labelOpt = true
 			hIdx := &gripql.GraphStatement_LookupVertsIndex{Labels: labels}
@@ -117,6 +119,21 @@ func IndexStartOptimize(pipe []*gripql.GraphStatement) []*gripql.GraphStatement 
 	}
 
 	return optimized
+}
+
+// uniqueStrings drops repeated values, keeping the first occurrence: a filter
+// keeps a row once however often its id or label is listed, so the lookup
+// that replaces the filter must visit each value once
+func uniqueStrings(vals []string) []string {
+	seen := make(map[string]bool, len(vals))
+	out := make([]string, 0, len(vals))
+	for _, v := range vals {
+		if !seen[v] {
+			seen[v] = true
+			out = append(out, v)
+		}
+	}
+	return out
 }
 
 func extractHasVals(h *gripql.GraphStatement_Has) []string {
